@@ -48,6 +48,13 @@ fn main() {
             let id = sys.guesses.len() as u32;
             sys.guesses.push((id, sys.scale * rng.sym()));
         }
+        // the analysis of a system of the same structure but other values (its guesses collapsed onto
+        // one point, or its own solution revisited) runs right before: an answer remembered from a
+        // previous call of the same shape would show up as a wrong answer for this one
+        {
+            let pred = with_collapsed_guess(&mut rng, sys.clone());
+            let _ = solve_analysis(&pred.reqs, pred.guesses.clone(), pred.config());
+        }
         let Ok(o) = solve_analysis(&sys.reqs, sys.guesses.clone(), sys.config()) else { continue };
         if o.outcome.is_unsatisfied() || o.outcome.iterations() > 15 {
             continue;
